@@ -196,6 +196,11 @@ def directed_pairs(rng) -> list[dict]:
     cp_ok = H18 + "agraph (float[1,1,5,5] x) => (float[?,?,?,?] y)\n<float[1,1,3,3] w = {1,1,1,1,1,1,1,1,1}, int64[8] pads = {0,0,1,2,0,0,1,0}>\n{\n  t = Pad (x, pads)\n  y = Conv (t, w)\n}\n"
     cp_bad = H18 + "agraph (float[1,1,5,5] x) => (float[?,?,?,?] y)\n<float[1,1,3,3] w = {1,1,1,1,1,1,1,1,1}, int64[8] pads = {0,1,1,2,0,0,1,0}>\n{\n  t = Pad (x, pads)\n  y = Conv (t, w)\n}\n"
     cp_refl = H18 + 'agraph (float[1,1,5,5] x) => (float[?,?,?,?] y)\n<float[1,1,3,3] w = {1,1,1,1,1,1,1,1,1}, int64[8] pads = {0,0,2,2,0,0,2,2}>\n{\n  t = Pad <mode = "reflect"> (x, pads)\n  y = Conv (t, w)\n}\n'
+    cpi_ok = H18 + "agraph (uint8[1,1,5,5] x) => (int32[?,?,?,?] y)\n<uint8[1,1,3,3] w = {1,1,1,1,1,1,1,1,1}, int64[8] pads = {0,0,1,2,0,0,1,0}>\n{\n  t = Pad (x, pads)\n  y = ConvInteger (t, w)\n}\n"
+    cpi_bad = H18 + "agraph (uint8[1,1,5,5] x) => (int32[?,?,?,?] y)\n<uint8[1,1,3,3] w = {1,1,1,1,1,1,1,1,1}, int64[8] pads = {0,1,1,2,0,0,1,0}>\n{\n  t = Pad (x, pads)\n  y = ConvInteger (t, w)\n}\n"
+    _rr = __import__("random").Random(11)
+    rms1 = G.m_rms_norm(_rr)[0]
+    rms2 = G.m_rms_norm(_rr)[0]
     fl_a = H18 + "agraph (float[2,3,4] x) => (float[?,?] y)\n{\n  y = Flatten <axis = 2> (x)\n}\n"
     fl_b = H18 + "agraph (float x) => (float[?,?] y)\n{\n  y = Flatten <axis = 1> (x)\n}\n"
     fold_mod = H18 + "agraph (float[2] x) => (float[2] y)\n<float[2] c1 = {1,2}, float[2] c2 = {3,4}>\n{\n  c = Add (c1, c2)\n  y = Add (x, c)\n}\n"
@@ -242,6 +247,8 @@ def directed_pairs(rng) -> list[dict]:
         {"tag": "stash:LayerNorm commuted rules share one instance", "history": [M("rewrite", ln1, rules="layer_norm_commute"), M("rewrite", ln2, rules="layer_norm")], "target": M("rewrite", ln1, rules="layer_norm_commute")},
         {"tag": "evalctx:raising default_as body then eager script", "history": [{"k": "evalctx", "b": 3, "body": ["s", [2, ["r"]]]}],
          "target": {"k": "evalctx", "b": 1, "body": ["s", [2, ["s"]], "s"]}},
+        {"tag": "stash:RmsNorm then RmsNorm (other dtype)", "history": [M("rewrite", rms1, rules="rms_norm")], "target": M("rewrite", rms2, rules="rms_norm")},
+        {"tag": "stash:FuseConvIntegerPad rejected-after-write then ok", "history": [M("rewrite", cpi_bad)], "target": M("rewrite", cpi_ok)},
         {"tag": "stash:LayerNorm eps then other eps", "history": [M("rewrite", ln1, rules="layer_norm")], "target": M("rewrite", ln2, rules="layer_norm")},
         {"tag": "failing:rewrite aborted by an exception then ok", "history": [M("rewrite", boom, rules="default_then_boom"), M("rewrite", boom, rules="boom_first")], "target": M("rewrite", rr_ok)},
         {"tag": "fold:modified then unmodified (shared pass)", "history": [M("fold", fold_mod)], "target": M("fold", fold_keep)},
@@ -451,6 +458,13 @@ class Checker:
                 fi = res.get("function_imports") or []
                 if not fi or len(fi[0]) < 3:
                     self.tie_failures.append((case, f"as_function case did not produce a function with three custom-domain imports: {fi}"))
+            elif op["k"] == "model" and op.get("op") == "convert_pass" and "new_val_names" in res:
+                if all("," not in n and " " not in n for n in res["names_before"]):
+                    k_new = len(res["new_val_names"])
+                    self.model_lines.append((f"vcnames {csvs(res['names_before'])} {k_new}", csvs(res["new_val_names"]) + f" namefix={int(k_new > 0)}", case))
+                    self.stats["convert_pass_cases"] += 1
+                    self.stats["convert_pass_adapter_values_named"] += k_new
+                    self.stats["convert_pass_skipping_existing_val_names"] += int(k_new > 0 and any(n.startswith("val_") for n in res["names_before"]))
             elif op["k"] == "model" and op.get("rules") == "default_pass" and "new_val_names" in res:
                 if all("," not in n and " " not in n for n in res["names_before"]):
                     self.model_lines.append((f"fresh {csvs(res['names_before'])} {len(res['new_val_names'])}", csvs(res["new_val_names"]), case))
@@ -591,6 +605,27 @@ class Checker:
             lines.append(line)
             exps.append(("raw", exp))
             cases.append(case)
+        # every stashing rule class of rules/{common,fusion} that has an instance in the process must have been observed
+        # succeeding, and what was observed over the whole run must be exactly the row (no listed field never seen)
+        agg: dict[str, dict] = {}
+        for k, n in self.events.items():
+            rule, ok, W, CR, R2, stale, nocheck = json.loads(k)
+            a = agg.setdefault(rule, {"W": set(), "R2": set(), "ok": 0, "fail": 0})
+            a["W"] |= set(W)
+            a["R2"] |= set(R2)
+            a["ok" if ok == "ok" else "fail"] += n
+        self.row_required = []
+        for r in self.rows["rules"]:
+            if not r["rewriteReads"] or r["name"].startswith("_"):
+                continue  # no stash, or an abstract base without instances
+            rname = f"{r['module'].rsplit('/', 1)[-1][:-3]}.{r['name']}"
+            a = agg.get(rname, {"W": set(), "R2": set(), "ok": 0, "fail": 0})
+            self.stats[f"row_monitored_ok:{r['name']}"] = a["ok"]
+            self.row_required.append((r["name"], a["ok"]))
+            if a["ok"]:
+                lines.append(f"rowcover {rname} W={csvs(sorted(a['W']))} R2={csvs(sorted(a['R2']))}")
+                exps.append(("rowcover", rname))
+                cases.append({"kind": "rowcover", "rule": rname, "observed_writes": sorted(a["W"]), "observed_rewrite_reads": sorted(a["R2"])})
         outs = self.drv.ask(lines)
         for line, exp, case, out in zip(lines, exps, cases, outs):
             self.stats["model_lines"] += 1
@@ -607,6 +642,10 @@ class Checker:
                     self.stats[f"stash_event:{rule.split('.')[-1]}:{ok}"] += n
                 if out != "admit":
                     self.tie_failures.append((case, f"rule object {rule} did something its generated row does not admit: {out} (event {case['event']})"))
+            elif kind == "rowcover":
+                self.stats["rows_checked_exact"] += 1
+                if out != "exact":
+                    self.tie_failures.append((case, f"generated row of {exp[1]} is not what the rule object does over the whole run: {out}"))
             elif kind == "uniq":
                 self.stats["uniq_calls"] += 1
                 if out.split(" ")[0] != exp[1]:
@@ -971,12 +1010,16 @@ def main(run: core.Run) -> None:
             "ctrl_sites", "ctrl_sites_iteration_unsorted", "uniq_calls", "as_function_rewrites", "kwseq_calls_on_siblings_of_target",
             "kwseq_calls_on_target", "ndarray_scripts_inplace_touching_body", "evalctx", "globals_fingerprint_histories",
             "true_fresh_processes", "history_failing_ops", "script_override_calls", "global_mutations_checked", "kw_model_lines",
-            "fresh_value_names_created", "fresh_value_names_skipping_existing", "op:model:convert_pass", "header_cases", "header_graph_without_std_opset", "header_std_from_function", "header_with_opset_version_kw", "header_std_from_kw_or_latest", "header_std_from_opset_version_kw",
+            "fresh_value_names_created", "fresh_value_names_skipping_existing", "op:model:convert_pass", "convert_pass_adapter_values_named", "convert_pass_skipping_existing_val_names", "header_cases", "header_graph_without_std_opset", "header_std_from_function", "header_with_opset_version_kw", "header_std_from_kw_or_latest", "header_std_from_opset_version_kw",
         ]
         zero = [k for k in required if not st[k]]
         if not (st["multi_domain_new_2"] + st["multi_domain_new_3"] + st["multi_domain_new_4"]):
             zero.append("multi_domain_new_>=2")
+        for cname, n_ok in getattr(chk, "row_required", []):
+            if not n_ok:
+                zero.append(f"row_monitored_ok:{cname}")
         run.coverage["required_counters"] = {k: st[k] for k in required}
+        run.coverage["stash_rows_monitored"] = dict(getattr(chk, "row_required", []))
         if zero:
             raise core.Infra("required coverage counters are zero (generator/monitor degenerated): " + ", ".join(zero))
         if st["target_raises_when_fresh"] > 0.3 * st["pairs"]:
